@@ -287,7 +287,11 @@ ADDENDA3 = {
         "pickle); about 85 more mutators and variants (mass/volumetric setters, h/Hnet/S setters incl. fall-backs, += -= /=, mix_from with energy balance and >= 2 inlets, separate_out, "
         "split_to, copy_flow variants, thermal_condition channels, reset_flow, temporary()); vle/lle/vlle/mix_from(vle=True)/receive_vent/ivol writes on real models incl. the solver state "
         "kept inside a Peng-Robinson mixture (mode B, oracle on an independent twin package).",
- 'C15': "Third session: see C15_gap.py groups in the evidence.",
+ 'C15': "Third session (C15_gap.py): SLE histories with an unchanged chemical set (another solute, a given-solubility call between computed ones) with the arguments of the eutectic "
+        "formula recorded (Tm, Hfus, Cn, gamma of the solute NAMED IN THIS CALL) and the requires of the activity-coefficient model checked; enthalpy-specified sle calls (all pure-solute "
+        "sub-branches, the mixture iteration, entry through Stream / MultiStream); lle(T, update=False), the reuse decision after describe-only / single-chemical / empty calls, LLE entry "
+        "points (accessors of every stream kind, P given, proxy, copy, phase views, representation changes between calls); real SLE histories and enthalpy calls, (K, phi) of the describe "
+        "form for all three methods (mode B). 2 more defects repaired.",
  'C16': "Third session (C16_gap.py): the arrays derived by the REAL GroupActivityCoefficients.__new__ (incl. get_interaction fall-backs, Q = 0 sub-groups, identical group sets) now in mode S for "
         "the limit and permutation sentences; cache/pickle/copy/subset/regroup histories; ideal models after the caller overwrote a returned array; read-only and strided inputs. 1 more defect repaired.",
  'C17': "Third session (C17_gap.py): ReactionItem as operand, reactant at other positions, second and later operations, operands re-based/moved/placed in sets before, reads through the public "
